@@ -1,6 +1,7 @@
 """C06 data directives: boundary-complete correspondence with the Lean model
 (`dir`, `wlist`) and the property stated directly on the emitted bytes."""
 import json
+import os
 
 from . import impl
 from .common import nl, parse_kv, parse_nl
@@ -227,6 +228,102 @@ def run(ctx):
             if r.outcome != "ok" or any(r.code) or (base + len(r.code)) % mm != 0 or len(r.code) >= mm:
                 ctx.violation("'.align' did not zero-fill to the next multiple", {"source": text}, expected="least zero fill to a multiple of %d" % mm,
                               observed=r.summary())
+    sequence_stream(ctx, ctx.rng("c06-seq"), 2500 if ctx.thorough else 500)
+
+
+def sequence_stream(ctx, rng, n):
+    """data directives in context: sequences in which the fill of '.even' / '.odd' / '.align' and the parity check of
+    '.word' depend on what came before, at top level, inside '.repeat' blocks (every pass at its own address) and
+    in an included file; the expected bytes are computed here statement by statement"""
+    def gen_body(k):
+        out = []
+        for _ in range(k):
+            out.append(rng.choice([(".even",), (".odd",), (".align", rng.choice([2, 3, 4, 5, 8, 16])), (".byte", rng.randrange(256)),
+                                   (".byte", rng.randrange(256)), (".blkb", rng.randint(0, 5)), (".word", rng.randrange(65536)),
+                                   (".ascii", "".join(rng.choice("abcXYZ09") for _ in range(rng.randint(1, 4))))]))
+        return out
+
+    def text_of(st):
+        if st[0] == ".ascii":
+            return '.ascii "%s"' % st[1]
+        if st[0] in (".even", ".odd"):
+            return st[0]
+        return "%s %s" % (st[0], num(st[1], rng))
+
+    def emit(st, addr):
+        """bytes of one statement at an address, or None for the odd-address error"""
+        k = st[0]
+        if k == ".even":
+            return b"\x00" * (addr % 2)
+        if k == ".odd":
+            return b"\x00" * (1 - addr % 2)
+        if k == ".align":
+            return b"\x00" * ((-addr) % st[1])
+        if k == ".byte":
+            return bytes([st[1]])
+        if k == ".blkb":
+            return b"\x00" * st[1]
+        if k == ".word":
+            return None if addr % 2 else st[1].to_bytes(2, "little")
+        return st[1].encode("ascii")
+
+    for it in range(n):
+        base = rng.choice([0o1000, 0o1001, 0o2003, 0o40000])
+        prog = []      # ("st", st) | ("rep", n, body) | ("inc", body)
+        for _ in range(rng.randint(1, 5)):
+            c = rng.random()
+            if c < 0.45:
+                prog.append(("rep", rng.randint(0, 6), gen_body(rng.randint(1, 4))))
+            elif c < 0.6:
+                prog.append(("inc", gen_body(rng.randint(1, 4))))
+            else:
+                prog.append(("st", gen_body(1)[0]))
+        addr, img, fails = base, b"", False
+        lines, incs = [".link %d." % base], []
+        for item in prog:
+            if item[0] == "st":
+                seqs, lines2 = [item[1]], [text_of(item[1])]
+            elif item[0] == "rep":
+                seqs = item[2] * item[1]
+                sep = rng.choice(["\n", "\n    "])
+                lines2 = [".repeat %s {%s%s\n}" % (num(item[1], rng), sep, sep.join(text_of(x) for x in item[2]))]
+            else:
+                seqs = item[1]
+                incs.append("\n".join(text_of(x) for x in item[1]) + "\n")
+                lines2 = ['.include "i%d.mac"' % (len(incs) - 1)]
+            lines += lines2
+            for st in seqs:
+                b = emit(st, addr)
+                if b is None:
+                    fails = True
+                    break
+                img += b
+                addr += len(b)
+            if fails:
+                break
+        if fails and rng.random() < 0.7:
+            continue        # keep some odd-address programs, not most
+        d = impl.scratch_dir()
+        try:
+            for i, t in enumerate(incs):
+                with open(os.path.join(d, "i%d.mac" % i), "w", encoding="utf-8") as f:
+                    f.write(t)
+            text = "\n".join(lines) + "\n"
+            r = impl.assemble([(os.path.join(d, "m.mac"), text)])
+        finally:
+            impl.drop_scratch(d)
+        inp = {"source": text, "included": incs}
+        ctx.case(("seq", text, tuple(incs)), nontrivial=any(i[0] != "st" for i in prog))
+        ctx.count("sequence-programs")
+        ctx.count("sequence-programs-with-repeat", any(i[0] == "rep" and i[1] >= 3 for i in prog))
+        if fails:
+            if r.outcome == "ok":
+                ctx.violation("a '.word' at an odd address was assembled", inp, expected="odd-address", observed=r.summary())
+            elif r.outcome != "failed" or "odd-address" not in r.error_ids():
+                ctx.violation("a '.word' at an odd address did not end in the odd-address error", inp, expected="odd-address", observed=r.summary())
+        elif r.outcome != "ok" or r.code != img:
+            ctx.violation("data directives in sequence / in a '.repeat' block / in an included file did not emit exactly the stated bytes "
+                          "(fill computed from each statement's own address)", inp, expected=img.hex(), observed=r.summary())
 
 
 def search(ctx, broken):
